@@ -401,6 +401,8 @@ def run(tier, seed, jobs):
     res = explore_schedules([ObsScenario(n, K) for n in names], K, jobs)
     if tier == "quick":
         res.merge(explore_schedules([ObsScenario("S-OBS-con", 2)], 2, jobs, cap=30000))
+    else:
+        res.merge(explore_schedules([ObsScenario(n, 3) for n in ("S-OBS-con", "S-OBS-non", "S-OBS-slowrender", "S-OBS-twotokens")], 3, jobs, cap=15000))
     return res
 
 
